@@ -71,7 +71,14 @@ pub fn lex_number(source: &[char]) -> Option<FoundToken> {
         return None;
     }
 
-    let end = source
+    // Only the leading run of characters that can be part of a numeric literal is relevant. Looking
+    // for the last digit of the whole remaining text made the token depend on unrelated later text.
+    let literal_len = source
+        .iter()
+        .take_while(|c| c.is_ascii_digit() || matches!(c, '.' | 'e' | 'E' | '+' | '-'))
+        .count();
+
+    let end = source[..literal_len]
         .iter()
         .enumerate()
         .rev()
